@@ -311,6 +311,11 @@ structure Env where
   cancelled : Bool := false
   /-- the environment variable `G` is set in this invocation (entries `${G:?}…` can be expanded) -/
   gset : Bool := true
+  /-- a SECOND ACTIVATION of the same task (no `run: once`) is started by a sibling dependency while the
+  first activation is inside its first command (`task parent`, `parent: deps: [this, other]`, `other:
+  cmds: [task: this]`).  It does not change what the first activation does (`invoke`); what the second
+  one reports is `twinUp`. -/
+  twin : Bool := false
 deriving Repr, DecidableEq
 
 inductive Exit | ok | failed | notUpToDate | cancelled | killed
@@ -450,6 +455,19 @@ def invoke (cfg : Cfg) (H : Hashes) (pr : Proj) (i : Nat) (m : Mode) (e : Env) (
       if checkErr t e s.files then (s, ⟨.checkError, false, [], []⟩) else
       let r := isUpToDate H pr t true e.now s
       if r.2 then (r.1, ⟨.ok, true, [], []⟩) else runBody cfg H pr i t true e r.1
+
+/-- **the second activation (`Env.twin`) is reported up to date**: its check runs on the state the
+FIRST activation's check has just left — the fingerprint is recorded at check time, before any command
+— while the first activation is still inside its first command.  (Mirrors the code: the open finding
+`C04-concurrent-activation-skipped`, same root as the kill finding.  An up-to-date verdict writes
+nothing, so the state is that of `invoke`.) -/
+def twinUp (H : Hashes) (pr : Proj) (i : Nat) (e : Env) (s : State) : Bool :=
+  match pr.tasks[i]? with
+  | none => false
+  | some t =>
+    let r := isUpToDate H pr t false e.now s
+    e.twin && !checkErr t e s.files && !(r.2 && !interrupted t e) && !(t.prompt && !e.yes) && !t.cmds.isEmpty &&
+      (isUpToDate H pr t false e.now r.1).2
 
 def Mode.readOnly : Mode → Bool
   | .dry | .status | .listJson | .list | .summary => true
